@@ -105,7 +105,7 @@ func VpH_C16_noisyband() {
 	}
 	r := mr.RankNoisy(move.From(from)|move.To(to)|move.Promo(promo), b, nil)
 	good := r >= Captures && r < HashMove
-	bad := r <= -Captures && r > -HashMove
+	bad := r <= -Captures && r > -HashMove+1 // strictly above the last stage's yield threshold
 	vp.Assert(good || bad, "noisy-rank-in-a-capture-band")
 	vp.Assert(r != -HashMove, "noisy-rank-never-duplicate-sentinel")
 	vp.Cover("end")
